@@ -175,6 +175,13 @@ def main(argv):
         print(out[-2000:], file=sys.stderr)
         return 2
     try:
+        # minimised past failures first (regression corpus), then the generated suites
+        cdir = os.path.join(lib.VERIF, 'corpus', prop)
+        if os.path.isdir(cdir) and hasattr(mod, 'corpus_case'):
+            for fn in sorted(os.listdir(cdir)):
+                if fn.endswith('.json'):
+                    with open(os.path.join(cdir, fn)) as fh:
+                        mod.corpus_case(ctx, json.load(fh))
         mod.run(ctx)
     except Exception:    # noqa: BLE001
         traceback.print_exc()
